@@ -1199,6 +1199,25 @@ func (g *gen) run() {
 			}
 			g.assumeGlobal(t)
 		}
+		// assume/guarantee across interface dispatch: what the contract of the interface method (`*.Name`) requires is shown at
+		// every invoke site (applyContract on the wildcard contract) and may be relied upon by each implementation
+		if g.inl == nil && g.fn.Signature.Recv() != nil && len(g.fn.Params) > 0 {
+			for _, ic := range g.e.ifaceContractsOf(g.fn) {
+				ienv := g.specEnvAtEntry()
+				ienv.vars["recv"] = g.val(g.fn.Params[0])
+				for i, p := range g.fn.Params[1:] {
+					ienv.vars[fmt.Sprintf("arg%d", i)] = g.val(p)
+				}
+				for _, r := range ic.Requires {
+					if t, err := g.evalBool(ienv, r.E); err == nil {
+						g.assumeGlobal(t)
+						g.assumed["entry of "+g.key+" relies on "+ic.Key+" requires "+r.Label+" (shown at the invoke sites)"] = true
+					} else {
+						g.contractErr("iface-requires", r.Label, err)
+					}
+				}
+			}
+		}
 	}
 	// the entry state may have been extended by evaluating requires (lazy heap declarations do not change it)
 	g.entry = g.cur.clone()
